@@ -242,7 +242,7 @@ def gen_case(tape, tier):
             if stress:
                 choices = ["put", "put", "put", "get", "get", "get", "in"]
             if cls == "disk":
-                choices += ["reopen", "wiped"]
+                choices += ["reopen", "wiped", "peer_put"]
             k = tape.pick(choices, "op")
             if k == "put":
                 nv += 1
@@ -259,6 +259,10 @@ def gen_case(tape, tier):
                 ops.append({"op": k, "key": tape.pick(KEYS, "key")})
             elif k == "reopen":
                 ops.append({"op": "reopen", "max_size": tape.pick([None, 1, 2, 3], "disk-max")})
+            elif k == "peer_put":
+                # another user of the directory (a second handle with the same bound, no front) stores a key of its own
+                nv += 1
+                ops.append({"op": "peer_put", "key": f"peer-{nv}", "value": f"v{nv}"})
             elif k == "wiped":
                 # another user of the directory (a second handle without a front of its own) clears it: this handle's files
                 # are gone, what its in-memory front still holds stays readable until this handle itself is cleared
@@ -511,6 +515,22 @@ def run_A(case, tape):
                         m.reopen(op["max_size"])
                         _disk_evictions(c, m, op, V, probes)
                         probes["disk_reopen"] = probes.get("disk_reopen", 0) + 1
+                    elif op["op"] == "peer_put":
+                        import pipefunc.cache as pc
+
+                        peer = pc.DiskCache(c.cache_dir, max_size=m.max, use_cloudpickle=cfg["cloudpickle"], with_lru_cache=False)
+                        if cfg.get("alphabet"):
+                            peer = KeyAdapter(peer, cfg["alphabet"])
+                        now[0] += 1
+                        ct_peer = now[0]
+                        sim.fs.on_open_write = lambda p_, existed, ct_peer=ct_peer: sim.fs.ctimes.__setitem__(p_, ct_peer)
+                        try:
+                            peer.put(op["key"], op["value"])
+                        finally:
+                            sim.fs.on_open_write = None
+                        m.files[op["key"]] = (op["value"], ct_peer)
+                        _disk_evictions(peer, m, op, V, probes)
+                        probes["disk_peer_put"] = probes.get("disk_peer_put", 0) + 1
                     elif op["op"] == "wiped":
                         import pipefunc.cache as pc
 
